@@ -684,25 +684,40 @@ Definition d_greq (x : xval) : option greq :=
   | _ => None
   end.
 
+(** The segmentation-blind verdict: what [serve_spec] says about the delivered bytes
+    (only for schedules of non-empty bursts; a 0-byte burst is an EOF to the reader). *)
+Definition blind_verdict (mode : N) (https : bool) (dh : option bytes) (max_len : nat) (limit : N)
+  (stream : bytes) (sched : list nat) : xval :=
+  if forallb (fun b => (0 <? b)%nat) sched then
+    match serve_spec mode https dh max_len limit (firstn (sum_sched sched) stream) with
+    | Ok w => XL [XN 0; XL (x_request_fields (w_method w) (w_path w) (w_query w) (w_version w) (w_headers w) (w_authority w)
+                            ++ [x_outcome XB (w_body w)])]
+    | Err e => XL [XN 1; XN e]
+    | Panic => XL [XN 2]
+    end
+  else XL [XN 7].
+
 (** spec for h1.request; the case input carries the structured request it was printed
-    from as an 8th element [(L [greq])]. *)
+    from as an 8th element [(L [greq])].  For a request of the grammar the verdict is the printed
+    request itself ([expect]); for every other stream it is [blind_verdict]. *)
 Definition run_request_spec (x : xval) : xval :=
   match x with
   | XL [h; d; XN max_len; XN mode; XB stream; s; XN limit; og] =>
       match d_bool h, d_option d_B d, d_sched s, d_option d_greq og with
       | Some https, Some dh, Some sched, Some og =>
           let delivered := Nat.min (sum_sched sched) (length stream) in
+          let blind := blind_verdict mode https dh (N.to_nat max_len) limit stream sched in
           if negb (contains_two_newlines (firstn (Nat.min (N.to_nat max_len) delivered) stream))
           then XL [XN 1]
           else
             match og with
-            | None => XL [XN 7]
+            | None => blind
             | Some g =>
                 let head := print_head g in
                 if greq_ok g && starts_with head stream && (length head <=? N.to_nat max_len)%nat then
                   let rest := skipn (length head) stream in
                   match expect https dh limit g rest with
-                  | None => XL [XN 7]
+                  | None => blind
                   | Some e =>
                       let need := N.to_nat (N.min (body_length (g_method g) (g_hmap g)) limit) in
                       if (length head + need <=? delivered)%nat then
@@ -715,9 +730,9 @@ Definition run_request_spec (x : xval) : xval :=
                                       ++ [if mode =? 0 then x_outcome XB (Ok (firstn (delivered - length head) rest))
                                           else if mode =? 1 then x_outcome XB (Err E_TIMEDOUT)
                                           else x_outcome XB (Err E_IO)])]
-                      else XL [XN 7]
+                      else blind
                   end
-                else XL [XN 7]
+                else blind
             end
       | _, _, _, _ => bad_input
       end
